@@ -1,4 +1,4 @@
-import QibProofs.Lemmas.TNetSurgeryFull
+import QibProofs.Lemmas.TNetSurgeryMergeFull
 /-!
 C08 — Network surgery keeps the network consistent and means what it says.
 Property theorems only (helper lemmas: `QibProofs/Lemmas/TNetSurgery*.lean`, `TNetBasic.lean`, `TNetSum.lean`).
@@ -125,6 +125,13 @@ theorem C08_merge_accepts_only_in_range {a b net' : Net} {j : List (Int × Int)}
   obtain ⟨orig, nb, _, _, _, _, _, _, _, _, _, _, _, h1, h2, h3, _⟩ := merge_ok_inv hok
   exact ⟨orig, nb, h1, h2, h3⟩
 
+/-- … and a join pair outside the open axes of either operand is refused with `ValueError` (the guard the code
+enforces), whatever else is passed -/
+theorem C08_merge_rejects_out_of_range {a b : Net} {j : List (Int × Int)} {tor bor : List Int} {oa ob : Nat}
+    (hoa : numOpenAxes a = .ok oa) (hob : numOpenAxes b = .ok ob)
+    (h : ∃ ja ∈ j, ¬ (0 ≤ ja.1 ∧ ja.1 < oa ∧ 0 ≤ ja.2 ∧ ja.2 < ob)) : merge a b j tor bor = .error .valueError :=
+  merge_out_of_range hoa hob h
+
 /-! ### counting laws -/
 
 /-- `rename_tensor`, `rename_bond`, `transpose` change no count -/
@@ -237,6 +244,124 @@ theorem C08_transpose_shape {net net' : Net} {axes : Option (List Int)} (h : Inv
   unfold netShape virt
   rw [dget_dmodify, hv]
   simp [transposedVirt]
+
+/-- **`merge` means the generalised contraction over the joined axes.** With `x`, `y` ranging over all multi-indices of
+the two operands (`allIdx shape`), the merged network has at every index `idx` within its shape the value
+
+  `Σ_x Σ_y [ (x ++ y) restricted to the remaining axes = idx ] · [ x[p] = y[q] for every join pair (p, q) ] · a[x] · b[y]`,
+
+i.e. the contraction of the two values over the joined axes (an axis joined several times identifies all the legs
+involved – the general case, no injectivity assumed), the remaining open axes being those of the first operand
+followed by those of the second (`remainingAxes` is increasing); its shape is the corresponding sub-list of the two
+shapes. Holds for every data assignment `D`, every iteration order of the shared-id sets and every scalar semiring. -/
+theorem C08_merge_full {a b net' : Net} {j : List (Int × Int)} {tor bor : List Int} (ha : Inv a) (hb : Inv b)
+    (ho : OrdersOK a b tor bor) (hdim : JoinDimsMatch a b j) (hok : merge a b j tor bor = .ok net')
+    (D : Option Int → List Nat → α) {va vb : STensor} (hva : dget a.tensors (-1) = some va)
+    (hvb : dget b.tensors (-1) = some vb) :
+    ∃ v', dget net'.tensors (-1) = some v' ∧
+      v'.shape = pickD (va.shape ++ vb.shape) 0 (remainingAxes va.shape.length vb.shape.length j) ∧
+      ∀ idx ∈ allIdx v'.shape, full net' D idx =
+        ((allIdx va.shape).map (fun x => ((allIdx vb.shape).map (fun y =>
+          if pickD (x ++ y) 0 (remainingAxes va.shape.length vb.shape.length j) == idx && joinsAgree j x y then
+            full a D x * full b D y else 0)).sum)).sum := by
+  have wa := (C08_inv_iff_wf a).mp ha
+  have wb := (C08_inv_iff_wf b).mp hb
+  obtain ⟨v', hv', hsh, hval⟩ := merge_full_raw wa wb ho.1 ho.2 hdim hok D hva hvb
+  obtain ⟨oa, ob, hoa, hob, hrange⟩ := C08_merge_accepts_only_in_range hok
+  rw [numOpenAxes_eq hva] at hoa
+  have hoa' : oa = va.shape.length := (Except.ok.inj hoa).symm
+  refine ⟨v', hv', by rw [hsh, keptAxes_eq], ?_⟩
+  intro idx hidx
+  rw [hval idx hidx, keptAxes_eq]
+  apply congrArg
+  apply List.map_congr_left
+  intro x hx
+  apply congrArg
+  apply List.map_congr_left
+  intro y _
+  rw [joinsAgree_eq j x y va.shape.length (length_of_mem_allIdx hx) (fun ja hja => by
+    have := hrange ja hja; rw [hoa'] at this; exact ⟨this.1, this.2.1⟩)]
+  by_cases c1 : (pickD (x ++ y) 0 (remainingAxes va.shape.length vb.shape.length j) == idx) = true <;>
+    by_cases c2 : joinsAgree j x y = true <;> simp [c1, c2]
+
+/-- the special case of an empty join list: the merged network is the outer product, first operand's axes first -/
+theorem C08_merge_full_outer {a b net' : Net} {tor bor : List Int} (ha : Inv a) (hb : Inv b)
+    (ho : OrdersOK a b tor bor) (hok : merge a b [] tor bor = .ok net')
+    (D : Option Int → List Nat → α) {va vb : STensor} (hva : dget a.tensors (-1) = some va)
+    (hvb : dget b.tensors (-1) = some vb) :
+    netShape net' = .ok (va.shape ++ vb.shape) ∧
+      ∀ x ∈ allIdx va.shape, ∀ y ∈ allIdx vb.shape, full net' D (x ++ y) = full a D x * full b D y := by
+  obtain ⟨v', hv', hsh, hval⟩ := C08_merge_full ha hb ho (fun _ _ _ _ ja hja => by simp at hja) hok D hva hvb
+  have hK : remainingAxes va.shape.length vb.shape.length [] = List.range (va.shape ++ vb.shape).length := by
+    simp [remainingAxes]
+  rw [hK, pickD_range] at hsh
+  refine ⟨by simp only [netShape, virt, hv', bind, Except.bind, pure, Except.pure, hsh], ?_⟩
+  intro x hx y hy
+  have hxy : x ++ y ∈ allIdx v'.shape := by
+    rw [hsh, mem_allIdx]
+    exact List.rel_append (mem_allIdx.mp hx) (mem_allIdx.mp hy)
+  rw [hval _ hxy, hK]
+  have hterm : ∀ x' ∈ allIdx va.shape, ((allIdx vb.shape).map (fun y' =>
+      if pickD (x' ++ y') 0 (List.range (va.shape ++ vb.shape).length) == x ++ y && joinsAgree [] x' y' then
+        full a D x' * full b D y' else 0)).sum = if x = x' then full a D x' * full b D y else 0 := by
+    intro x' hx'
+    have h1 : ∀ y' ∈ allIdx vb.shape,
+        (if pickD (x' ++ y') 0 (List.range (va.shape ++ vb.shape).length) == x ++ y && joinsAgree [] x' y' then
+          full a D x' * full b D y' else 0) = if y = y' then (if x = x' then full a D x' * full b D y' else 0) else 0 := by
+      intro y' hy'
+      have hl : (x' ++ y').length = (va.shape ++ vb.shape).length := by
+        simp [length_of_mem_allIdx hx', length_of_mem_allIdx hy']
+      rw [← hl, pickD_range]
+      have hxl : x'.length = x.length := by rw [length_of_mem_allIdx hx', length_of_mem_allIdx hx]
+      have hj : joinsAgree [] x' y' = true := rfl
+      rw [hj, Bool.and_true]
+      by_cases hboth : x = x' ∧ y = y'
+      · obtain ⟨rfl, rfl⟩ := hboth
+        simp
+      · have hne : (x' ++ y' == x ++ y) = false := by
+          rw [beq_eq_false_iff_ne]
+          intro e
+          have := List.append_inj e hxl
+          exact hboth ⟨this.1.symm, this.2.symm⟩
+        rw [hne]
+        simp only [Bool.false_eq_true, if_false]
+        by_cases c2 : y = y'
+        · have c1 : ¬ x = x' := fun c1 => hboth ⟨c1, c2⟩
+          rw [if_pos c2, if_neg c1]
+        · rw [if_neg c2]
+    rw [List.map_congr_left h1, sum_delta_nodup _ (nodup_allIdx _), if_pos hy]
+  rw [List.map_congr_left hterm, sum_delta_nodup _ (nodup_allIdx _), if_pos hx]
+
+/-- **`merge` depends on its second operand only through that operand's value**: two second operands with the same
+shape and the same contracted values give merged networks with the same shape and the same values (whatever their
+tensor ids, bond ids, internal structure and the iteration orders used). In particular the second operand is an
+argument, not a state: nothing of it but its meaning enters the result. (That the Python object passed as second
+operand is not mutated is checked on the real objects by the correspondence harness – the model is a pure function.) -/
+theorem C08_merge_pure {a b b' n1 n2 : Net} {j : List (Int × Int)} {tor bor tor' bor' : List Int} (ha : Inv a)
+    (hb : Inv b) (hb' : Inv b') (ho : OrdersOK a b tor bor) (ho' : OrdersOK a b' tor' bor')
+    (hdim : JoinDimsMatch a b j) (hdim' : JoinDimsMatch a b' j)
+    (h1 : merge a b j tor bor = .ok n1) (h2 : merge a b' j tor' bor' = .ok n2)
+    (D : Option Int → List Nat → α) (hshape : netShape b = netShape b') (hval : ∀ y, full b D y = full b' D y) :
+    netShape n1 = netShape n2 ∧ ∀ s, netShape n1 = .ok s → ∀ idx ∈ allIdx s, full n1 D idx = full n2 D idx := by
+  obtain ⟨va, hva⟩ := ((C08_inv_iff_wf a).mp ha).virt_get
+  obtain ⟨vb, hvb⟩ := ((C08_inv_iff_wf b).mp hb).virt_get
+  obtain ⟨vb', hvb'⟩ := ((C08_inv_iff_wf b').mp hb').virt_get
+  have hs : vb.shape = vb'.shape := by
+    unfold netShape virt at hshape
+    rw [hvb, hvb'] at hshape
+    exact Except.ok.inj hshape
+  obtain ⟨v1, hv1, hsh1, hval1⟩ := C08_merge_full ha hb ho hdim h1 D hva hvb
+  obtain ⟨v2, hv2, hsh2, hval2⟩ := C08_merge_full ha hb' ho' hdim' h2 D hva hvb'
+  have hns1 : netShape n1 = .ok v1.shape := by unfold netShape virt; rw [hv1]; rfl
+  have hns2 : netShape n2 = .ok v2.shape := by unfold netShape virt; rw [hv2]; rfl
+  have hsh : v1.shape = v2.shape := by rw [hsh1, hsh2, hs]
+  refine ⟨by rw [hns1, hns2, hsh], ?_⟩
+  intro s hs' idx hidx
+  rw [hns1] at hs'
+  have : s = v1.shape := (Except.ok.inj hs').symm
+  subst this
+  rw [hval1 idx hidx, hval2 idx (by rw [← hsh]; exact hidx), ← hs]
+  simp only [hval]
 
 end Value
 
